@@ -11,7 +11,7 @@ Not decided: split-invariance as an equality over read histories.
 from ..context import Context
 from ..report import Report
 from ..facts import Facts, Matcher, ANY, is_const, const_val, describe, describe_fact
-from ..rules import (require_on_success, guarded_site, success_edges, facts_for_success, stores_to_field,
+from ..rules import (blocks_reachable_from, require_on_success, guarded_site, success_edges, facts_for_success, stores_to_field,
                      min_width_through_casts, rets)
 
 DEC, DT = "LHADecoder", "LHADecoderType"
@@ -19,6 +19,35 @@ DEC, DT = "LHADecoder", "LHADecoderType"
 
 def dfield(f):
     return ("load", ("field", DEC, f, ("param", 0)))
+
+
+def ceil_div_of(fn, F, M, v, xpat, bspat):
+    """v is ceil(x / bs) for x matching xpat and bs matching bspat, in either spelling:
+         (x + bs - 1) / bs            or            x / bs  (+ 1 exactly when x % bs != 0)"""
+    one = ("bin", "udiv", ("bin", "sub", ("bin", "add", xpat, ("bind", "bs", bspat)), 1), ("bind", "bs"))
+    if M.match(one, v, {}) is not None:
+        return True
+    srcs = F.sources(v)
+    if len(srcs) != 2:
+        return False
+    q = ("bin", "udiv", ("bind", "x", xpat), ("bind", "bs", bspat))
+    rem_ne = ("ne", ("bin", "urem", ("bind", "x"), ("bind", "bs")), 0)
+    seen = set()
+    for s_, fs in srcs:
+        e = M.match(q, s_, {})
+        if e is not None:
+            if M.find_fact(("eq", rem_ne[1], 0), fs, dict(e))[0] is None:
+                return False
+            seen.add("floor")
+            continue
+        e = M.match(("bin", "add", q, 1), s_, {})
+        if e is not None:
+            if M.find_fact(rem_ne, fs, dict(e))[0] is None:
+                return False
+            seen.add("floor+1")
+            continue
+        return False
+    return seen == {"floor", "floor+1"}
 
 
 def identity_rules(rep, ctx, mod, prefix=""):
@@ -34,6 +63,23 @@ def identity_rules(rep, ctx, mod, prefix=""):
         return None
     X = M.strip(rr[0].ops[0], ())
     where = "%s:%s" % (fn.file, rr[0].line())
+    # an early `return 0` (nothing requested, nothing left) merges into the return as a constant incoming: such an incoming is fine when
+    # no byte can have reached the caller's buffer on the way (no copy, no decoder run lies before it); the count proper is the other one
+    ret_pred = rr[0].block.id
+    dX = fn.defn(X)
+    if dX is not None and not dX.is_param and dX.op == "phi" and dX.block.id == rr[0].block.id:
+        writers = {c.block.id for c in fn.insts() if c.op == "call" and ((c.callee or "").startswith("llvm.memcpy") or
+                   (not c.callee and M.match(("load", ("field", "LHADecoderType", "read", ANY)), c.calleev, {}) is not None))}
+        after_w = blocks_reachable_from(fn, list(writers)) | writers
+        proper = []
+        for v_, pb_ in dX.incoming:
+            if is_const(v_) and const_val(v_) == 0 and pb_ not in after_w:
+                rep.ok(rid, "early return 0 from bb%d: nothing was written to the caller's buffer before it" % pb_, None, where)
+            else:
+                proper.append((v_, pb_))
+        if len(proper) == 1:
+            X = M.strip(proper[0][0], ())
+            ret_pred = proper[0][1]
     crcs = list(fn.calls("lha_crc16_buf"))
     rep.check(rid, len(crcs) == 1, "exactly one CRC update per read", where, "%d calls" % len(crcs), function=fn.cname, obj="crc-calls")
     for c in crcs:
@@ -44,13 +90,13 @@ def identity_rules(rep, ctx, mod, prefix=""):
         rep.check(rid, c.ops[2] == X, "CRC'd byte count is the returned count", c.where(),
                   "crc len = %s, returned = %s" % (describe(fn, c.ops[2]), describe(fn, X)), function=fn.cname, obj="crc-len")
         # the CRC update lies on every path to the return
-        rep.check(rid, fn.dominates(c.block.id, rr[0].block.id), "the CRC update dominates the return", c.where(), None, function=fn.cname, obj="crc-dom")
+        rep.check(rid, fn.dominates(c.block.id, ret_pred), "the CRC update dominates the return of the count", c.where(), None, function=fn.cname, obj="crc-dom")
     sts = stores_to_field(mod, DEC, "stream_pos", [fn])
     rep.check(rid, len(sts) == 1, "exactly one stream_pos update per read", where, "%d stores" % len(sts), function=fn.cname, obj="pos-stores")
     for s in sts:
         e = M.match(("bin", "add", dfield("stream_pos"), ("bind", "n")), s.ops[0], {})
         rep.check(rid, e is not None and e["n"] == X, "stream_pos += returned count", s.where(), describe(fn, s.ops[0]), function=fn.cname, obj="pos-inc")
-        rep.check(rid, fn.dominates(s.block.id, rr[0].block.id), "the position update dominates the return", s.where(), None, function=fn.cname, obj="pos-dom")
+        rep.check(rid, fn.dominates(s.block.id, ret_pred), "the position update dominates the return of the count", s.where(), None, function=fn.cname, obj="pos-dom")
 
     # the returned count counts exactly the bytes copied into buf
     rid2 = rep.rule(prefix + "R1b", "the returned count is 0 plus the lengths of the memcpy's into buf + count", 2)
@@ -109,7 +155,6 @@ def identity_rules(rep, ctx, mod, prefix=""):
         zero = set(F.edges_with_fact(("eq", ("inst", r.id), 0)))
         if any(M.strip(st_.ops[0]) == ("v", r.id) for st_ in stores_to_field(mod, DEC, "outbuf_len", [fn])):
             # the result is kept in outbuf_len and tested there (possibly after the paths with and without a refill have merged)
-            from ..rules import blocks_reachable_from
             after_r = blocks_reachable_from(fn, [r.block.id]) | {r.block.id}
             zero |= {e_ for e_ in F.edges_with_fact(("eq", dfield("outbuf_len"), 0)) if e_[0] in after_r}
         bad = [e_ for e_ in zero if not any(st.block.id == e_[1] for st in setf) and
@@ -161,6 +206,8 @@ def run(tier, seed):
                 for s, fs in F.sources(lim, through_casts=False):
                     if M.match(("param", 2), s, {}) is not None and M.strip(s, ()) == ("v", fn.params[2].id):
                         f, _ = M.find_fact(("ule", over[1], over[2]), fs)
+                        if f is None:       # the same without the addition that can wrap: buf_len <= stream_length - stream_pos
+                            f, _ = M.find_fact(("ule", ("param", 2), ("bin", "sub", dfield("stream_length"), dfield("stream_pos"))), fs)
                         rep.check(rid, f is not None, "limit = buf_len only if stream_pos + buf_len <= stream_length", fn.file, None, function=fn.cname, obj="limit-buflen")
                     elif M.match(("bin", "sub", dfield("stream_length"), dfield("stream_pos")), s, {}) is not None:
                         rep.ok(rid, "limit = stream_length - stream_pos otherwise", None, fn.file)
@@ -233,14 +280,20 @@ def run(tier, seed):
                 F = ctx.facts(cp)
                 blockv = ("bin", "udiv", ("bin", "sub", ("bin", "add", dfield("stream_pos"), ("bind", "bs", ("load", ("field", DT, "block_size", dfield("dtype"))))), 1), ("bind", "bs"))
                 f, _ = M.find_fact(("ne", dfield("last_block"), blockv), F.at_inst(c))
+                if f is None:
+                    bsp = ("load", ("field", DT, "block_size", dfield("dtype")))
+                    for fc in F.at_inst(c):
+                        if fc[0] == "ne" and M.match(dfield("last_block"), fc[1], {}) is not None and not is_const(fc[2]) and ceil_div_of(cp, F, M, fc[2], dfield("stream_pos"), bsp):
+                            f = fc
                 rep.check(rid, f is not None, "callbacks continue while last_block != ceil(stream_pos / block_size)", c.where(), None, function=cp.cname, obj="loop")
         mo = rep.need(rid, mod.fn("lha_decoder_monitor"), "function lha_decoder_monitor")
         if mo:
             M = Matcher(mo)
             sts = stores_to_field(mod, DEC, "total_blocks", [mo])
             tot = ("bin", "udiv", ("bin", "sub", ("bin", "add", dfield("stream_length"), ("bind", "bs", ("load", ("field", DT, "block_size", dfield("dtype"))))), 1), ("bind", "bs"))
-            rep.check(rid, len(sts) == 1 and M.match(tot, sts[0].ops[0], {}) is not None, "total_blocks = ceil(stream_length / block_size)", mo.file, None,
-                      function=mo.cname, obj="total")
+            okt = len(sts) == 1 and (M.match(tot, sts[0].ops[0], {}) is not None or
+                                     ceil_div_of(mo, ctx.facts(mo), M, sts[0].ops[0], dfield("stream_length"), ("load", ("field", DT, "block_size", dfield("dtype")))))
+            rep.check(rid, okt, "total_blocks = ceil(stream_length / block_size)", mo.file, None, function=mo.cname, obj="total")
             rep.check(rid, len(list(mo.calls("check_progress_callback"))) == 1, "attaching a monitor reports block 0 at once", mo.file, None, function=mo.cname, obj="initial")
         # last_block starts at UINT_MAX so that the first increment announces block 0
         nw = rep.need(rid, mod.fn("lha_decoder_new"), "function lha_decoder_new")
